@@ -1,4 +1,5 @@
 import DoitModel.Proofs.C11Final
+import DoitModel.Proofs.C11LazyMon
 /-! # C11 — setup-tasks are lazy; teardowns run once, in reverse order
 
 Property theorems only.  Base model: `Model/Run.lean` (dispatcher + the three runners); teardown bookkeeping of every
@@ -54,14 +55,78 @@ theorem C11_setup_before_parent_parallel (inp : RunInput) (s : Sys) (hr : PReach
     ∀ d ∈ inp.setup t, Ev.success d ∈ post ∨ Ev.skipUtd d ∈ post :=
   fun d hd => start_after_deps (preach_inv hr).1 he d (by simp [staticDeps, hd])
 
-/-- The trace form of laziness that the driver evaluates on every implementation trace (`monLazy`: every task that is
-    touched is selected, a task_dep / calc_dep / delivered dep of a justified task, or a setup-task of a justified task
-    that was chosen for execution and still pending when the setup-task was first touched).  NOT proved for the model:
-    it needs the correspondence between node creation and first report (a node is reported only after it was created,
-    and a `run`-pending parent has `get_status` and no terminal report), which `Proofs/Run*.lean` does not provide yet.
-    The state form above is what is proved; this statement is monitored only. -/
+/-- The trace form of laziness exactly as the driver evaluates it on every implementation trace (`monLazy`: every
+    task that is touched is selected, a task_dep / calc_dep / delivered dep of a justified task, or a setup-task of a
+    justified task that was chosen for execution and still pending when the setup-task was first touched), for EVERY
+    value of the fuel / range parameter `nTasks`.  FALSE as written: `nTasks` is also the fuel of the two closure
+    iterations of the monitor, and a fuel smaller than the number of tasks does not reach the end of a long dependency
+    chain (`C11_lazy_monitor_full_counterexample`) — an artefact of the monitor's parameter, not of doit: the harness
+    always passes the number of tasks, and the real doit gives the same verdicts on that input
+    (corpus/C11/chain-4-monitor-fuel.json: `n = 4` true, `n = 1` false on the trace of the real run). -/
 def C11_lazy_monitor_full : Prop :=
   ∀ (inp : RunInput) (s : Sys), (Reach inp s ∨ PReach inp s) → ∀ nTasks, monLazy inp nTasks (trace inp s) = true
+
+/-- a chain `3 → 2 → 1 → 0` of task_deps, `3` selected -/
+def exChain : RunInput :=
+  { taskDep := fun n => if n = 0 ∨ n > 3 then [] else [n - 1], calcDep := fun _ => [], setup := fun _ => [], sel := [3] }
+
+/-- with `nTasks = 1` the monitor looks at task `0` only and gives the closure 2 rounds: `[3] → [3,2] → [3,2,1]`;
+    task `0`, which is executed, is not reached -/
+theorem C11_lazy_monitor_full_counterexample : ¬ C11_lazy_monitor_full := by
+  intro h
+  have hr : Reach exChain (autoRun exChain false false 400 (init exChain)).1 :=
+    autoRun_reach (by decide) false false 400 _ Reach.init
+  have h1 := h exChain _ (Or.inl hr) 1
+  have h2 : monLazy exChain 1 (trace exChain (autoRun exChain false false 400 (init exChain)).1) = false := by
+    decide +kernel
+  rw [h2] at h1; cases h1
+
+/-- C11 (laziness) in the form of the monitor, at full strength for every parameter the monitor is ever used with:
+    when every task name of the input is below `nTasks` (`Bounded`, decidable; the harness passes the number of
+    tasks; it also asks that a task without actions — whose start is not observable — delivers nothing "after a
+    failed execution"), `monLazy` holds on the observable trace of every reachable state of the serial and of the parallel
+    systems — every graph (cyclic ones included), every oracle, every set-iteration order and interleaving.  So no
+    task is touched unless it is selected, a (static or delivered) task_dep / calc_dep of a justified task, or a
+    setup-task of a justified task that had been chosen for execution (`get_status` reported, no terminal report,
+    not ignored, status `run`, all first-stage dependencies finished) when the setup-task was first touched. -/
+theorem C11_lazy_monitor (inp : RunInput) (s : Sys) (hr : Reach inp s ∨ PReach inp s) (nTasks : Nat)
+    (hb : Bounded inp nTasks) : monLazy inp nTasks (trace inp s) = true := by
+  by_cases hser : inp.runner = .serial
+  · rcases hr with hr | hr
+    · exact monLazy_of_lm hb.p (reach_ctx hser hr) (reach_lm hb.p hser hr)
+    · rw [preach_mismatch hser hr]; exact monLazy_init inp nTasks
+  · rcases hr with hr | hr
+    · rw [reach_mismatch hser hr]; exact monLazy_init inp nTasks
+    · exact monLazy_of_lm hb.p (preach_ctx hser hr) (preach_lm hb.p hser hr)
+
+/-- the hypothesis is met by the chain with the right parameter, and there the monitor says yes on the same run -/
+example : Bounded exChain 4 ∧
+    monLazy exChain 4 (trace exChain (autoRun exChain false false 400 (init exChain)).1) = true :=
+  ⟨by decide, C11_lazy_monitor exChain _ (Or.inl (autoRun_reach (by decide) false false 400 _ Reach.init)) 4 (by decide)⟩
+
+/-- `1` has the calc_dep `0`, whose execution fails after it returned `task_dep: [2]`; `--continue` -/
+def exFailDeliver : RunInput :=
+  { taskDep := fun _ => [], calcDep := fun n => if n = 1 then [0] else [], setup := fun _ => [], sel := [1]
+    continue_ := true, outcome := fun n => if n = 0 then .failed else .ok
+    calcResFail := fun n => if n = 0 then { tasks := [2] } else {} }
+
+/-- deliveries of a failed calc task are covered: `2` is delivered by the failed `0`, it is touched (and executed), and
+    the monitor — whose closure follows `RunMon.resAt` — accepts the run; the hypothesis `Bounded` holds -/
+example : Bounded exFailDeliver 3 ∧
+    (trace exFailDeliver (autoRun exFailDeliver false false 400 (init exFailDeliver)).1).contains (Ev.success 2) = true ∧
+    monLazy exFailDeliver 3 (trace exFailDeliver (autoRun exFailDeliver false false 400 (init exFailDeliver)).1) = true :=
+  ⟨by decide, by decide +kernel,
+    C11_lazy_monitor exFailDeliver _ (Or.inl (autoRun_reach (by decide) false false 400 _ Reach.init)) 3 (by decide)⟩
+
+/-- task `1` is up-to-date and has the setup-task `0` -/
+def exUtdParent : RunInput :=
+  { taskDep := fun _ => [], calcDep := fun _ => []
+    setup := fun n => if n = 1 then [0] else []
+    sel := [1], statusOf := fun _ => .utd }
+
+/-- the monitor is not trivially true: a trace that touches the setup-task `0` of an up-to-date task `1` is rejected -/
+example : monLazy exUtdParent 2 [Ev.getStatus 1, Ev.skipUtd 1, Ev.getStatus 0] = false := by
+  decide
 
 /-! ## teardown: the shared list (serial runner, thread runner) -/
 
